@@ -12,6 +12,8 @@ def props_of(b):
     m = ev.get("m", "")
     label_m = m in ("Label", "BNE", "BEQ", "BPL", "BMI", "BCC", "BCS", "BRA", "JMP_abs", "SetBase")
     for w in why:
+        if w == "observer_panic":    # Bytes()/Len()/PC()/listing accessor of a valid emitter panicked: every emitter property relies on them
+            out.update(("C03", "C06", "C07", "C15", "C16", "C19"))
         if w in ("refused_guard", "flags", "cpu"):
             out.add("C07")
         if w in ("refused_cap",):
